@@ -242,6 +242,15 @@ def sentinel_cases():
         for tail in (["more garbage"], ["Feature: f", " bad"], []):
             cases.append({"sub": "text", "label": "unknown-language-as-nth-fault", "text": "\n".join(["stray %d" % i for i in range(n)] + ["#language: xx-unknown"] + tail) + "\n"})
             cases.append({"sub": "text", "label": "unknown-language-as-nth-fault", "text": "\n".join(["@a b%d" % i for i in range(n)] + ["  # language: zz"] + tail) + "\n"})
+    for first in ("#language: xx-unknown", "  # language: zz"):
+        for second in ("#language: fr", "# language: yy-unknown", "#language: en", "# language: no"):
+            for body in ("Fonctionnalit\u00e9: f\n Sc\u00e9nario: s\n  Soit x\n", "Feature: f\n Scenario: s\n  Given x\n", "Egenskap: f\n"):
+                cases.append({"sub": "text", "label": "header-after-unknown-header", "text": first + "\n" + second + "\n" + body})
+                cases.append({"sub": "text", "label": "header-after-unknown-header", "text": first + "\n# c\n\n" + second + "\n@t\n" + body})
+    for n in (39, 40, 41, 100):
+        for hdr in ("#language: fr", "# language: qq-unknown"):
+            cases.append({"sub": "text", "label": "header-below-a-banner", "text": "# banner\n" * (n - 1) + hdr + "\nFonctionnalit\u00e9: f\n Sc\u00e9nario: s\n  Soit x\n"})
+            cases.append({"sub": "text", "label": "header-below-a-banner", "text": "\n" * (n - 1) + hdr + "\nFeature: f\n"})
     for k in (2, 3, 12):
         tables = []
         for i in range(k):
@@ -393,7 +402,7 @@ def unit_dialect_spellings(a):
     stats = Stats()
     cases = []
     for d in sorted(DIALECTS):
-        for v in sorted({d.lower(), d.upper(), d.swapcase(), d.title(), d.replace("-", "_"), d.replace("-", ""), d.split("-")[-1], d + "-x"}):
+        for v in sorted({d.lower(), d.upper(), d.swapcase(), d.title(), d.replace("-", "_"), d.replace("-", ""), d.split("-")[-1], d.split("-")[0], d + "-x"} | {"nb", "nn", "iw", "in", "zh", "mk", "sr", "hy", "jp", "cn", "ua", "cz", "dk", "gr"}):
             if v and v not in DIALECTS:
                 cases.append({"sub": "text", "text": "#language: %s\n%s: f\n" % (v, DIALECTS[d]["feature"][0]), "label": "dialect-code-spelling"})
                 cases.append({"sub": "text", "text": "  # language: %s\n@t\n" % v, "label": "dialect-code-spelling"})
